@@ -1,5 +1,179 @@
-import Solvor.Sat.Model
-/-! Sat: property theorems only (helper lemmas live in Lemmas.lean). -/
+import Solvor.Sat.Lemmas
+import Solvor.Sat.Luby
+/-!
+Sat: the property theorems of C01 and C02 (helper lemmas are in `Lemmas.lean` / `Luby.lean`).
+
+Layers (DESIGN §4 C01/C02):
+* T-spec – the verified checkers the driver evaluates on every value `solve_sat` returns
+  (`evalCnf_iff`, `evalCnf_models`, `pairwiseDistinct_iff`);
+* T-model – the reference DPLL and model enumerator are sound and complete for every
+  well-formed CNF with assumptions (`dpll_sat_iff`, `dpll_unsat_iff`, `dpll_models_complete`), so an
+  `INFEASIBLE`/model verdict of `solve_sat` is compared against a *proved* verdict on each input;
+* facts about the mechanisms the property names: blocking clauses (`distinct_of_blocked`),
+  1-UIP resolution (`resolve_sound`, `learn_chain_sound`), the Luby schedule as regenerated from
+  the source (`luby_pos`, `luby_pow2`, `luby_fuel`, `luby_at_pow`, `luby_rec`).
+
+Not proved (stretch items [S] of the design, about a CDCL mirror model `Sat.Cdcl`):
+-- FULL STATEMENT (not proved): cdcl_returns_models — for every input and parameter setting every
+--   assignment returned by the CDCL mirror satisfies formula and assumptions.
+-- FULL STATEMENT (not proved): cdcl_infeasible_sound — the mirror answers INFEASIBLE only for
+--   unsatisfiable formula + assumptions.
+-- FULL STATEMENT (not proved): cdcl_fuel_suffices — the mirror never exhausts the fuel derived
+--   from (solution_limit, max_restarts, max_conflicts, number of variables).
+-/
 namespace Solvor.Sat
+
+/-! ## C01 -/
+
+/-- T-spec (C01): the checker run on every returned assignment `m` (a `dict[int,bool]`, as its item
+list) accepts exactly when every occurring variable has an entry, every clause contains a literal
+whose variable is assigned the literal's sign, and every assumption literal is assigned its sign. -/
+theorem evalCnf_iff (f : Cnf) (as : List Int) (m : AList) :
+    evalCnf f as m = true ↔
+      (∀ c ∈ f, ∀ l ∈ c, ∃ b, m.lookup l.natAbs = some b) ∧
+      (∀ a ∈ as, ∃ b, m.lookup a.natAbs = some b) ∧
+      (∀ c ∈ f, ∃ l ∈ c, m.lookup l.natAbs = some (decide (0 < l))) ∧
+      (∀ a ∈ as, m.lookup a.natAbs = some (decide (0 < a))) := by
+  unfold evalCnf totalOn
+  simp only [Bool.and_eq_true, List.all_eq_true, List.any_eq_true, litHolds_iff,
+    Option.isSome_iff_exists]
+  constructor
+  · rintro ⟨⟨⟨h1, h2⟩, h3⟩, h4⟩; exact ⟨h1, h2, h3, h4⟩
+  · rintro ⟨h1, h2, h3, h4⟩; exact ⟨⟨⟨h1, h2⟩, h3⟩, h4⟩
+
+example : evalCnf [[1, -2], [2, 3], [-1, -3]] [-3] [(1, true), (2, true), (3, false)] = true := by decide
+example : evalCnf [[1], [2, 3]] [] [(1, false), (2, true), (3, true)] = false := by decide
+
+/-- T-spec (C01), semantic form: an accepted assignment, read as a total assignment, is a model of
+the formula and of the assumptions; conversely a model that has an entry for every occurring
+variable is accepted. -/
+theorem evalCnf_models (f : Cnf) (as : List Int) (m : AList) :
+    evalCnf f as m = true ↔ totalOn m f as = true ∧ Models (asgOf m) f as := by
+  unfold evalCnf
+  simp only [Bool.and_eq_true, List.all_eq_true, List.any_eq_true]
+  constructor
+  · rintro ⟨⟨ht, h1⟩, h2⟩
+    refine ⟨ht, fun c hc => ?_, fun a ha => litTrue_asgOf_of_holds (h2 a ha)⟩
+    obtain ⟨l, hl, hh⟩ := h1 c hc
+    exact ⟨l, hl, litTrue_asgOf_of_holds hh⟩
+  · rintro ⟨ht, h1, h2⟩
+    have ht' := ht
+    unfold totalOn at ht'
+    simp only [Bool.and_eq_true, List.all_eq_true] at ht'
+    refine ⟨⟨ht, fun c hc => ?_⟩, fun a ha => holds_of_litTrue_asgOf (ht'.2 a ha) (h2 a ha)⟩
+    obtain ⟨l, hl, hh⟩ := h1 c hc
+    exact ⟨l, hl, holds_of_litTrue_asgOf (ht'.1 c hc l hl) hh⟩
+
+example : totalOn [(1, true), (2, false)] [[1, 2]] [-2] = true ∧ Models (asgOf [(1, true), (2, false)]) [[1, 2]] [-2] :=
+  (evalCnf_models _ _ _).1 (by decide)
+
+/-- T-spec (C01): the distinctness checker accepts exactly the lists of assignments that pairwise
+differ on some variable. -/
+theorem pairwiseDistinct_iff (ms : List AList) :
+    pairwiseDistinct ms = true ↔ ms.Pairwise (fun a b => ∃ v, a.lookup v ≠ b.lookup v) := by
+  induction ms with
+  | nil => simp [pairwiseDistinct]
+  | cons a ms ih =>
+    simp only [pairwiseDistinct, Bool.and_eq_true, List.all_eq_true, differ_iff, ih, List.pairwise_cons]
+
+example : pairwiseDistinct [[(1, true), (2, true)], [(1, true), (2, false)], [(1, false), (2, true)]] = true := by decide
+example : pairwiseDistinct [[(1, true), (2, true)], [(1, false), (2, true)], [(1, true), (2, true)]] = false := by decide
+
+/-- T-model (C01/C02): the reference DPLL answers "satisfiable" exactly when formula and assumptions
+have a common model – for every CNF without the literal 0 (fuel proved sufficient). -/
+theorem dpll_sat_iff (f : Cnf) (as : List Int) (hf : WF f) (ha : ∀ a ∈ as, a ≠ 0) :
+    solve (withAssumptions f as) = true ↔ ∃ σ, Models σ f as := by
+  rw [solve_correct _ (WF_withAssumptions hf ha)]
+  exact ⟨fun ⟨σ, h⟩ => ⟨σ, cnfTrue_withAssumptions.1 h⟩, fun ⟨σ, h⟩ => ⟨σ, cnfTrue_withAssumptions.2 h⟩⟩
+
+example : WF [[1, 2], [-1, 3], [-2, -3]] ∧ solve (withAssumptions [[1, 2], [-1, 3], [-2, -3]] [-1]) = true :=
+  ⟨by decide, by decide⟩
+
+/-- T-model (C01): the enumerator lists the models of `f` projected to the distinct variables
+`vs`, each exactly once: every entry assigns exactly `vs` and extends to a model; the projection of
+every model is listed; no entry is listed twice. -/
+theorem dpll_models_complete (vs : List Nat) (f : Cnf) (hvs : vs.Nodup) (h0 : ∀ v ∈ vs, v ≠ 0) (hf : WF f) :
+    (∀ m ∈ enumModels vs f, m.map Prod.fst = vs ∧ ∃ σ, cnfTrue σ f = true ∧ ∀ p ∈ m, σ p.1 = p.2) ∧
+    (∀ σ, cnfTrue σ f = true → vs.map (fun v => (v, σ v)) ∈ enumModels vs f) ∧
+    (enumModels vs f).Nodup :=
+  ⟨fun m hm => ⟨enum_keys vs f m hm, enum_sound vs f hvs h0 hf m hm⟩, enum_complete vs f h0 hf, enum_nodup vs f⟩
+
+example : enumModels [1, 2] [[1, 2], [-1, 3]] =
+    [[(1, true), (2, true)], [(1, true), (2, false)], [(1, false), (2, true)]] := by decide
+
+/-- C01 (blocking clauses): an assignment that satisfies the blocking clause built from an earlier
+assignment differs from it on one of the blocked variables. -/
+theorem distinct_of_blocked (σ τ : Asg) (vs : List Nat) (h0 : ∀ v ∈ vs, v ≠ 0)
+    (h : clauseTrue τ (blocking σ vs) = true) : ∃ v ∈ vs, σ v ≠ τ v := by
+  rw [clauseTrue_iff] at h
+  obtain ⟨l, hl, ht⟩ := h
+  obtain ⟨v, hv, rfl⟩ := List.mem_map.1 hl
+  refine ⟨v, hv, ?_⟩
+  cases hb : σ v with
+  | true => simp only [hb, if_true, litTrue_neg_natCast (h0 v hv)] at ht; simpa using ht
+  | false =>
+    simp only [hb, Bool.false_eq_true, if_false, litTrue_natCast (h0 v hv)] at ht
+    simp [ht]
+
+example : clauseTrue (fun v => v == 2) (blocking (fun v => v == 1) [1, 2]) = true := by decide
+
+/-- C01/C02 (clause learning): the resolvent on a non-zero pivot is true under every assignment
+making both parents true. -/
+theorem resolve_sound (σ : Asg) (c d : Clause) (p : Int) (hp : p ≠ 0)
+    (hc : clauseTrue σ c = true) (hd : clauseTrue σ d = true) : clauseTrue σ (resolve c d p) = true :=
+  resolve_true hp hc hd
+
+example : resolve [1, 2] [-1, 3] 1 = [2, 3] := by decide
+
+/-- C01/C02 (clause learning): a clause obtained from an entailed conflict clause by the 1-UIP chain
+of resolutions with entailed antecedents – and any clause containing all its literals, e.g. the
+de-duplicated one `analyze()` stores – is entailed by the formula. -/
+theorem learn_chain_sound (f : Cnf) (c0 : Clause) (steps : List (Clause × Int)) (c' : Clause)
+    (h0 : Entails f c0) (hs : ∀ s ∈ steps, Entails f s.1 ∧ s.2 ≠ 0)
+    (hsub : ∀ l ∈ chain c0 steps, l ∈ c') : Entails f c' := by
+  intro σ hσ
+  obtain ⟨l, hl, ht⟩ := clauseTrue_iff.1 (entails_chain steps c0 h0 hs σ hσ)
+  exact clauseTrue_iff.2 ⟨l, hsub l hl, ht⟩
+
+example : chain [-1, -2] [([2, -3], 2), ([3, -1], 3)] = [-1, -1] := by decide
+
+/-! ## C02 -/
+
+/-- T-model (C02): the reference DPLL answers "unsatisfiable" exactly when formula and assumptions
+have no common model; `solve_sat`'s INFEASIBLE is compared against this verdict on every input. -/
+theorem dpll_unsat_iff (f : Cnf) (as : List Int) (hf : WF f) (ha : ∀ a ∈ as, a ≠ 0) :
+    solve (withAssumptions f as) = false ↔ ¬ ∃ σ, Models σ f as := by
+  rw [← dpll_sat_iff f as hf ha]; simp
+
+example : solve (withAssumptions [[1, 2]] [-1, -2]) = false := by decide
+
+/-- C02 (Luby schedule, regenerated from `solvor/sat.py`): `luby(i) ≥ 1` for `i ≥ 1`; as the loop
+returns 0 only when the fuel `2*i+2` runs out, this also says the source loop terminates. -/
+theorem luby_pos (i : Nat) (hi : 1 ≤ i) : 1 ≤ luby i := by
+  obtain ⟨j, hj⟩ := (lubyLoop_spec (2 * i + 2) i 1 (by omega) (by simpa using hi) (by omega)).1
+  unfold luby Solvor.Gen.lubyK0; rw [hj]; exact Nat.one_le_two_pow
+
+/-- C02: every value of the schedule is a power of two. -/
+theorem luby_pow2 (i : Nat) (hi : 1 ≤ i) : ∃ j, luby i = 2 ^ j :=
+  (lubyLoop_spec (2 * i + 2) i 1 (by omega) (by simpa using hi) (by omega)).1
+
+/-- C02: fuel sufficiency – more fuel than `2*i+2` never changes the value (the Python `while True`
+loop makes at most `2*i+2` iterations). -/
+theorem luby_fuel (i : Nat) (hi : 1 ≤ i) (n : Nat) (hn : 2 * i + 2 ≤ n) :
+    Solvor.Gen.lubyLoop n i Solvor.Gen.lubyK0 = luby i := by
+  have := (lubyLoop_spec (2 * i + 2) i 1 (by omega) (by simpa using hi) (by omega)).2 (n - (2 * i + 2))
+  unfold luby Solvor.Gen.lubyK0
+  rw [← this]; congr 1; omega
+
+example : (List.range 16).map luby = [0, 1, 1, 2, 1, 1, 2, 4, 1, 1, 2, 1, 1, 2, 4, 8] := by decide
+
+/-- C02: the regenerated loop computes *the* Luby sequence: `luby (2^k - 1) = 2^(k-1)` and
+`luby i = luby (i - 2^(k-1) + 1)` for `2^(k-1) ≤ i < 2^k - 1` (these two equations define it). -/
+theorem luby_is_luby :
+    (∀ k, 1 ≤ k → luby (2 ^ k - 1) = 2 ^ (k - 1)) ∧
+    (∀ i k, 1 ≤ k → 2 ^ (k - 1) ≤ i → i < 2 ^ k - 1 → luby i = luby (i - (2 ^ (k - 1) - 1))) :=
+  ⟨luby_at_pow, luby_rec⟩
+
+example : luby (2 ^ 3 - 1) = 4 ∧ luby 5 = luby (5 - (2 ^ (3 - 1) - 1)) := by decide
 
 end Solvor.Sat
